@@ -296,6 +296,11 @@ impl Default for SenderOpts {
 pub fn sender_strategy(o: SenderOpts) -> BoxedStrategy<SenderSpec> {
     let min_e = o.min_default_e;
     let oti = (oti_strategy(o.oti), 0u8..10).prop_map(move |(mut s, tiny)| {
+        // a Raptor session default is mostly unusable while the Raptor findings are open (the FDT
+        // instance itself falls under them): keep it to a small share of the sessions
+        if s.scheme == Scheme::Raptor && tiny % 4 != 1 {
+            s.scheme = Scheme::RaptorQ;
+        }
         // tiny session-default symbols only in ~10% of the cases
         if tiny != 0 && s.e < min_e {
             let al = s.al.max(1) as u16;
